@@ -143,6 +143,9 @@ func init() {
 		badEnvFirst := c.Deviate(2) == 1 // an earlier ParseArgs on the same parser failed because $C04_INT held an unconvertible value
 		var argv []string
 		if part == 0 {
+			if !c.Thorough && (variant == 1 || variant == 3 || badEnvFirst) {
+				c.Skip() // quick: the byte strings go through the first and third declaration on a fresh parser only
+			}
 			maxLen := 4
 			if c.Thorough {
 				maxLen = 5
@@ -294,7 +297,7 @@ func init() {
 		Assumptions:  []string{"os.Stdout / os.Stderr are swapped for files per worker process and offset deltas read per leaf", "declarations reflect.StructOf cannot build (unexported fields in positional structs) are outside the space"},
 		RequiredHits: []string{"print-errors", "help-printed", "foreign-positional-error", "err:unknown flag", "err:expected argument", "err:marshal", "err:no argument for bool", "err:invalid choice", "err:help", "err:required", "err:ok"},
 		Bound:        [2]string{"byte strings <= 4, token vectors <= 2, <= 2 option-flag deviations", "byte strings <= 5, token vectors <= 3, <= 2 option-flag deviations"},
-		BudgetS:      [2]int{100, 1500},
+		BudgetS:      [2]int{170, 1500},
 	})
 }
 
